@@ -39,7 +39,7 @@ def check(tier, seed):
                 '>= 128, UBX binary between sentences, CR/LF variants; thorough adds all strings of length <= 4 over 7 byte classes '
                 'before/inside/after a valid sentence; compared: frames_rx vs model, vs extracted count_sentences spec, vs a Python '
                 'transcription of the property text; every pair of 23 characters (hex digits, blanks, signs, CR/LF/TAB ...) as checksum field for bodies '
-                'with small and large XOR; every stream whole, cut in two (position rotating) and byte-wise; non-trivial = stream contains "$"')
+                'with small and large XOR; sentence bodies with binary material (sync pairs, NUL, CR/LF, bytes >= 128); every stream whole, cut in two (position rotating), with an empty chunk in between, and byte-wise; non-trivial = stream contains "$"')
     with C.WorkDir('C16') as wd:
         C.audit_sources()
         C.props_obligations(res, 'C16', wd)
@@ -54,6 +54,15 @@ def check(tier, seed):
             elif r < 0.4 and s:
                 del s[rng.randrange(len(s))]
             streams.append((bytes(s), 'mix'))
+        # sentence bodies are arbitrary bytes other than '$' and '*': binary material (UBX sync pairs, NUL, bytes >= 128) inside the body
+        for _ in range(120 if tier == 'quick' else 5000):
+            body = bytearray(rng.choice(b'GPRMC,0123456789.ANE') for _ in range(rng.randrange(0, 14)))
+            for _k in range(rng.randrange(1, 4)):
+                ins = rng.choice([b'\xb5\x62', b'\xb5', b'\x62\xb5', b'\x00', b'\xff\xfe', b'\r\n', b'\xb5\x62\x06\x01', bytes([rng.randrange(256)])])
+                at = rng.randrange(len(body) + 1)
+                body[at:at] = ins
+            body = bytes(b for b in body if b not in b'$*')
+            streams.append((rng.choice([b'', b'\xb5\x62', b'x']) + G.nmea(body, case=rng.choice(['upper', 'lower'])) + G.nmea(b'GPGGA,2'), 'binary-body'))
         good = G.nmea(b'GPRMC,1')
         L = 3 if tier == 'quick' else 4
         for n in range(L + 1):
@@ -88,6 +97,8 @@ def check(tier, seed):
                 variants.append(('bytes', [s[k:k + 1] for k in range(len(s))]))
             cut = idx % (len(s) + 1)
             variants.append((f'cut@{cut}', [s[:cut], s[cut:]]))
+            if idx % 3 == 0:        # an empty chunk (a read that timed out) in the middle of the stream changes nothing
+                variants.append((f'empty@{cut}', [s[:cut], b'', s[cut:]]))
             for cname, parts in variants:
                 ops = [('P', p) for p in parts]
                 impl = C.guarded(G.impl_nmea, ops)
